@@ -452,6 +452,70 @@ def check_cov_structure(case):
     return {"nontrivial": True, "classes": [f"kind={kind}", f"p={p_}"]}
 
 
+# ------------------------------------------------------------------ long series, big batches
+
+
+def long_big_cells(tier):
+    for cost in ("L2Cost", "GaussianVarCost"):
+        for fixed in (False, True):
+            yield {"what": "long_series", "cost": cost, "fixed": fixed, "n": 100_000, "seed": 35001}
+            for m in (8192, 16384, 65536, 8191, 20_000):
+                yield {"what": "big_batch", "cost": cost, "fixed": fixed, "rows": m, "seed": 35002}
+    for m in (8192, 20_000):
+        yield {"what": "big_batch", "cost": "GaussianCovCost", "fixed": False, "rows": m, "seed": 35003}
+
+
+def _definition(cost, fixed, rows):
+    x = rows.astype(np.longdouble)
+    n_ = len(x)
+    if cost == "L2Cost":
+        m = np.longdouble(0.25) if fixed else x.mean(axis=0)
+        return ((x - m) ** 2).sum(axis=0).astype(float)
+    if cost == "GaussianVarCost":
+        if fixed:
+            return (n_ * np.log(2 * np.pi * 2.0) + ((x - 0.25) ** 2).sum(axis=0) / 2.0).astype(float)
+        v = ((x - x.mean(axis=0)) ** 2).sum(axis=0) / n_
+        return (n_ * np.log(2 * np.pi * v) + n_).astype(float)
+    c = np.cov(rows, rowvar=False, ddof=0).reshape(rows.shape[1], rows.shape[1])
+    return np.array([n_ * rows.shape[1] * np.log(2 * np.pi) + n_ * np.linalg.slogdet(c)[1] + rows.shape[1] * n_])
+
+
+def check_long_big(case):
+    """(a) a series of 100000 rows, two columns on different levels: intervals inside and across the rows 32768, 65536, 98304 (where a
+    blocked accumulation would restart); (b) ONE evaluate call with exactly 8192 / 16384 / 65536 (and 8191, 20000) cuts - the sliding
+    windows of width 10 over rows + 9 samples: every probed row against the definition computed from the rows X[s:e] (long double)."""
+    from skchange import costs
+
+    cost, fixed = case["cost"], case["fixed"]
+    param = None if not fixed else (0.25 if cost == "L2Cost" else (0.25, 2.0))
+    rng = np.random.Generator(np.random.PCG64(case["seed"]))
+    if case["what"] == "long_series":
+        n = case["n"]
+        X = rng.standard_normal((n, 2)) + np.array([0.5, -1.0])
+        cuts = np.array([[0, n], [50_000, 80_000], [65_000, 66_000], [65_535, 65_537], [32_000, 33_000], [98_000, 99_000], [98_303, 98_310],
+                         [0, 65_536], [65_536, n], [10, 40], [70_000, 70_050], [99_990, n]])
+    else:
+        m = case["rows"]
+        p_ = 2 if cost != "GaussianCovCost" else 2
+        X = rng.standard_normal((m + 9, p_)) + 0.5
+        cuts = np.column_stack((np.arange(m), np.arange(m) + 10))
+    with sut(f"{cost} on a long series / in a big batch"):
+        got = np.asarray(getattr(costs, cost)(param=param).fit(X).evaluate(cuts), dtype=float)
+    if got.shape[0] != len(cuts):
+        raise Violation("evaluate did not return one row per cut", rows=len(cuts), got=list(got.shape))
+    probe = range(len(cuts)) if len(cuts) <= 50 else sorted({0, 1, 8190, 8191, len(cuts) - 1, len(cuts) - 2, *range(0, len(cuts), 1013)} & set(range(len(cuts))))
+    for i in probe:
+        s_, e_ = cuts[i]
+        want = _definition(cost, fixed, X[s_:e_])
+        # worst-case rounding of the prefix sums (section 3.4), for the Gaussian cost propagated through n log(variance)
+        B = ref.error_bound(len(X), float(np.abs(X).max()) + 1.0)
+        tol = 1e-7 * (1 + np.abs(want)) + (B if cost == "L2Cost" else B / max(float(np.var(X[s_:e_], axis=0).min()), 1e-3))
+        if not np.all(np.isfinite(got[i])) or np.any(np.abs(got[i] - want) > tol):
+            raise Violation("cost differs from its definition computed directly from the rows X[s:e]", cost=cost, fixed=fixed, cut=[int(s_), int(e_)],
+                            rows_in_call=len(cuts), n=len(X), got=got[i].tolist(), expected=want.tolist())
+    return {"nontrivial": True, "classes": [f"what={case['what']}", f"cost={cost}"] + ([f"rows={case['rows']}"] if case["what"] == "big_batch" else [])}
+
+
 # ------------------------------------------------------------------ structured batches on longer series
 
 
@@ -603,6 +667,13 @@ FACETS = [
         rule=("wrong-length mean/variance, non-positive variance, wrong-shape or non-positive-definite covariance; "
               "fit must raise ValueError; every case is non-trivial"),
         n_quick=300, n_thorough=3000, shards_quick=4, shards_thorough=8,
+    ),
+    Facet(
+        name="long_series_and_big_batches", kind="enumerate", enumerate=long_big_cells, check=check_long_big, exhaustive=True, time_limit=300,
+        rule=("L2Cost / GaussianVarCost (both parameter modes) on 100000 rows x 2 columns on different levels: 12 intervals inside and across rows 32768, "
+              "65536, 98304; and ONE evaluate call with exactly 8192 / 16384 / 65536 / 8191 / 20000 cuts (sliding windows of width 10; GaussianCovCost "
+              "8192 / 20000): probed rows against the definition from the rows X[s:e] (long double); every cell non-trivial"),
+        shards_quick=8, shards_thorough=8, max_samples=1,
     ),
     Facet(
         name="covariance_structures", kind="enumerate", enumerate=cov_structure_cells, check=check_cov_structure, exhaustive=True,
